@@ -18,3 +18,8 @@ const (
 	cr = '\r'
 	lf = '\n'
 )
+
+const (
+	// MaxBulkLength is the maximum length of a bulk string (the proto-max-bulk-len default of Redis).
+	MaxBulkLength = 512 * 1024 * 1024
+)
